@@ -7,6 +7,7 @@
 #include <cstdlib>
 #include <cstring>
 #include <ctime>
+#include <cerrno>
 #include <dlfcn.h>
 #include <pthread.h>
 #include <sched.h>
@@ -77,6 +78,8 @@ std::atomic<uint64_t> gSeed{1};
 Counters gCounters;
 
 thread_local ThreadRec *tSelf = nullptr;
+thread_local bool tFailNextCreate = false;
+std::atomic<uint64_t> gCreateFailures{0};
 
 inline uint64_t xs(uint64_t &s) {
     s ^= s << 13;
@@ -349,6 +352,8 @@ void stopMonitor() {
     realJoin(monitorThread, nullptr);
 }
 void noteProgress() { gProgress.fetch_add(1, std::memory_order_relaxed); }
+void failNextCreate() { tFailNextCreate = true; }
+uint64_t createFailuresInjected() { return gCreateFailures.load(); }
 
 void pinCpus(int n, int base) {
     cpu_set_t set;
@@ -443,6 +448,11 @@ int pthread_cond_broadcast(pthread_cond_t *c) {
 int pthread_create(pthread_t *th, const pthread_attr_t *attr, void *(*fn)(void *), void *arg) {
     resolve();
     gEvents.fetch_add(1, std::memory_order_relaxed);
+    if (tFailNextCreate) {
+        tFailNextCreate = false;
+        gCreateFailures.fetch_add(1, std::memory_order_relaxed);
+        return EAGAIN;   // what the real call reports when no further thread can be created
+    }
     gCounters.creates.fetch_add(1, std::memory_order_relaxed);
     auto *tr = new Tramp{fn, arg, allocRecord()};
     int r = realCreate(th, attr, trampoline, tr);
